@@ -4,6 +4,7 @@
 EXTENDS Integers, Sequences, FiniteSets, TLC, Json, TLCExt
 S == INSTANCE Syslog WITH MaxOps <- 0, cee <- FALSE, hist <- <<>>
 H == INSTANCE LevelHook WITH done <- FALSE
+N == INSTANCE LevelNames WITH done <- FALSE
 TraceLog == ndJsonDeserialize("hist.ndjson")
 VARIABLES l, bad
 Seq1(x) == [i \in 1..Len(x) |-> x[i]]
@@ -22,7 +23,18 @@ HookOK(e) == \A i \in 1..Len(e.got) :
 CtxOK(e) == \A i \in 1..Len(e.ops) :
               LET o == e.ops[i]  g == e.got[i] IN
               IF o.op = "With" THEN g.same = o.same ELSE g.found = o.want
-Guard(e) == CASE e.a = "Syslog" -> SyslogOK(e) [] e.a = "LevelHook" -> HookOK(e) [] e.a = "CtxStore" -> CtxOK(e) [] e.a = "Reset" -> TRUE [] OTHER -> FALSE
+\* the text form of levels: every text of the alphabet parsed by ParseLevel and by UnmarshalText, every level of the int8 range
+\* written by String and by MarshalText and read back
+NamesOK(e) == /\ \A i \in 1..Len(e.parsed) :
+                   LET g == e.parsed[i]  x == N!Parse(g.t, e.conf) IN
+                   /\ g.lvl = x.lvl /\ g.err = x.err             \* ParseLevel
+                   /\ g.ulvl = x.lvl /\ g.uerr = x.err           \* UnmarshalText is ParseLevel; the receiver is NoLevel after a failure
+              /\ \A i \in 1..Len(e.strs) :
+                   LET g == e.strs[i] IN
+                   /\ g.s = N!Str(g.l) /\ g.m = N!Marshal(g.l, e.conf) /\ ~g.merr
+                   /\ g.back = (e.conf # "func" \/ g.l \in N!Named)   \* what MarshalText wrote, UnmarshalText reads as the same level
+              /\ e.nilerr                                         \* a nil *Level is refused, not dereferenced
+Guard(e) == CASE e.a = "LevelNames" -> NamesOK(e) [] e.a = "Syslog" -> SyslogOK(e) [] e.a = "LevelHook" -> HookOK(e) [] e.a = "CtxStore" -> CtxOK(e) [] e.a = "Reset" -> TRUE [] OTHER -> FALSE
 TInit == l = 1 /\ bad = <<>>
 TNext == /\ l <= Len(TraceLog) /\ l' = l + 1
          /\ LET e == TraceLog[l] IN IF Guard(e) THEN UNCHANGED bad ELSE bad' = Append(bad, <<l, "">>)
